@@ -600,6 +600,62 @@ func genFmtCase(r *Rng) *fmtCase {
 	return &fmtCase{S: s}
 }
 
+// genSkipFmtCase: as genFmtCase, with some of the types returning ErrSkip AFTER they rendered (what was rendered stays in
+// the file, and so do the imports it referenced); at least one type renders and succeeds
+func genSkipFmtCase(r *Rng) *fmtCase {
+	c := genFmtCase(r)
+	var keys []string
+	for k := range c.S.Reacts {
+		keys = append(keys, k)
+	}
+	sort.Strings(keys)
+	for i, k := range keys {
+		if i > 0 && r.Chance(55) {
+			c.S.Reacts[k] = "sb-"
+		}
+	}
+	return c
+}
+
+// importsCase: a fmtCase judged for C03 only — the import block of the written file against what its body references
+type importsCase struct{ fmtCase }
+
+func (c *importsCase) Oracle(out string) string {
+	if m := c.judge().msg; strings.Contains(m, "is not imported") || strings.Contains(m, "is imported but not referenced") {
+		return m
+	}
+	return ""
+}
+func (c *importsCase) Key() string {
+	var b strings.Builder
+	for _, it := range c.items() {
+		b.WriteString(it.K + ":" + it.S + "|" + it.Path + "." + it.Name + ";")
+	}
+	return fmt.Sprintf("go%s %s %v %s", c.goVersion(), c.modPath(), c.S.Reacts, b.String())
+}
+func (c *importsCase) Shrinks() []Case {
+	var out []Case
+	for _, s := range c.fmtCase.Shrinks() {
+		out = append(out, &importsCase{fmtCase: *s.(*fmtCase)})
+	}
+	return out
+}
+
+func importsBatch(cases []Case) []string {
+	scns := make([]*PScn, len(cases))
+	for i, c := range cases {
+		scns[i] = &c.(*importsCase).S
+	}
+	outs := runScenarios(scns, 16)
+	res := make([]string, len(cases))
+	for i, c := range cases {
+		fc := c.(*importsCase)
+		fc.out = outs[i]
+		res[i] = fc.Run()
+	}
+	return res
+}
+
 func fmtBatch(cases []Case) []string {
 	scns := make([]*PScn, len(cases))
 	for i, c := range cases {
